@@ -136,6 +136,23 @@ func kRange(r *vlib.RNG, kvs []KV) *RangeSpec {
 func kBlockCases(r *vlib.RNG, n int, res *vlib.Result) []string {
 	var cases []string
 	for i := 0; i < n; i++ {
+		// the implementation may panic on a block it wrote itself (injected bug): report it like kTableCase does and
+		// go on, so that result.json with the (P) violations and their replay files is still written
+		cases = append(cases, kBlockCase(r, i, res)...)
+	}
+	return cases
+}
+
+func kBlockCase(r *vlib.RNG, i int, res *vlib.Result) (cases []string) {
+	var cc *curCheck // replayable as a "block" check
+	defer func() {
+		if p := recover(); p != nil {
+			desc := fmt.Sprintf("panic while producing a (K) block case: %v%s", p, implFrame())
+			res.Violate(desc, cc.replay(desc))
+			cases = nil
+		}
+	}()
+	{
 		cid := r.Intn(vlib.NumComparers)
 		ri := r.Range(1, 8)
 		shape := []int{ShapeEmpty, ShapeSingle, ShapeLongPrefix, ShapeEmptyValues, ShapeRandom, ShapeTiny, ShapeDense, ShapePrefixChain}[r.Pick(1, 1, 3, 2, 3, 2, 3, 2)]
@@ -148,10 +165,12 @@ func kBlockCases(r *vlib.RNG, n int, res *vlib.Result) []string {
 		for j, kv := range kvs {
 			keys[j], vals[j] = kv.K, kv.V
 		}
+		tc := newCase(TableCfg{Cmp: cid, RestartInterval: ri}, shape, kvs)
+		cc = &curCheck{Typ: "block", TC: tc, Expected: "block writer and block iterator do not panic on a sorted list of pairs"}
 		data, err := table.VerifBlockBuild(ri, keys, vals)
 		if err != nil {
 			res.Violate("VerifBlockBuild failed: "+err.Error(), map[string]interface{}{"ri": ri})
-			continue
+			return nil
 		}
 		blen := table.VerifBlockBytesLen(ri, keys, vals)
 		res.Count("k_block_cases", 1)
@@ -168,6 +187,7 @@ func kBlockCases(r *vlib.RNG, n int, res *vlib.Result) []string {
 				incl = r.Bool()
 			}
 			ops := GenOps(r, kvs, []int{0}, ri, 30)
+			cc = &curCheck{Typ: "block", TC: tc, RS: rs, InclLimit: incl, Ops: ops, Expected: cc.Expected}
 			it, err := table.VerifBlockIter(vlib.ComparerByID(cid), data, rs.slice(), incl)
 			if err != nil {
 				continue
